@@ -48,7 +48,10 @@ class PydanticValidator(base.BaseValidator):
         signature = self.signature(method, tuple(exclude))
         schema = self.build_validation_schema(signature)
 
-        params_model = pydantic.create_model(method.__name__, **schema, __config__=self._model_config)
+        # string (postponed) annotations are resolved in the namespace of the method's module
+        params_model = pydantic.create_model(
+            method.__name__, **schema, __config__=self._model_config, __module__=method.__module__,
+        )
 
         bound_params = self.bind(signature, params)
         try:
